@@ -358,10 +358,16 @@ pub fn check_linearizable<S: Send + Sync + 'static, R: Send + Clone + Ord + std:
     let mut preempted = 0u64;
     let mut bound_done: Option<String> = None;
     let mut found: Vec<(String, String, Vec<usize>)> = vec![];
+    // kinds of the form "witness:<name>" returned by `extra` are vacuity witnesses, not violations
+    let mut wit: std::collections::BTreeMap<String, u64> = Default::default();
     for b in &c.bounds {
         let mut local: Vec<(String, String, Vec<usize>)> = vec![];
         let stats = explore(c.spec, *b, c.max_schedules, |x, shared, choices| {
             let (outcome, v) = judge_schedule(c, &seq, x, shared);
+            let (w, v): (Vec<_>, Vec<_>) = v.into_iter().partition(|(k, _)| k.starts_with("witness:"));
+            for (k, _) in w {
+                *wit.entry(k[8..].to_string()).or_default() += 1;
+            }
             seen.insert(outcome);
             if x.points.iter().any(|p| p.running.map_or(false, |r| p.choices[p.chosen].0 != r)) {
                 preempted += 1;
@@ -398,6 +404,9 @@ pub fn check_linearizable<S: Send + Sync + 'static, R: Send + Clone + Ord + std:
     for o in &seen {
         rep.outcomes.insert(format!("{}:{o}", c.site));
     }
+    for (k, n) in wit {
+        rep.witness(&k, n);
+    }
     rep.witness("thread_schedules_with_preemption", preempted);
     if seen.len() >= 2 {
         rep.witness("thread_config_with_several_outcomes", 1);
@@ -430,7 +439,7 @@ pub fn replay_schedule<S: Send + Sync + 'static, R: Send + Clone + Ord + std::fm
     }
     let (outcome, v) = judge_schedule(c, &seq, &a, &sa);
     println!("outcome: {outcome}");
-    for (k, d) in &v {
+    for (k, d) in v.iter().filter(|(k, _)| !k.starts_with("witness:")) {
         println!("VIOLATED {k}: {d}");
     }
     v.iter().any(|(k, _)| k == kind)
